@@ -606,7 +606,61 @@ def _parse_assignment_text(text):
     t = re.match(r"\s*(\w+)\(([\w,]*)\)", lhs)
     return (t.group(1), tuple(_split(t.group(2)))), [(n, tuple(_split(ix_))) for n, ix_ in occ]
 
-def call_scenario(text, participant_order=0, evaluate=None, target_first=True):
+def self_via_init(ix, problem, evaluate):
+    """The TensorMethod a call works on is the one TensorMethod.__init__ builds: evaluate __init__ abstractly on
+    the scenario's Problem (code generation and compilation are opaque and hand back `evaluate`), so that
+    anything __init__ precomputes for __call__ is there.  None if __init__ is outside the modelled fragment."""
+    from . import symeval as S
+
+    init = ix.funcs.get(f"{TM}.__init__")
+    if init is None:
+        return None
+    tm_mod = TM.rsplit(".", 1)[0]
+    KW, POS = "KEYWORD_ONLY", "POSITIONAL_OR_KEYWORD"
+
+    def parameter(name, kind=POS, **_kw):
+        return S.Obj("Parameter", name=name, kind=kind)
+
+    def signature(parameters=()):
+        parameters = list(parameters)
+
+        def bind(*args, **kwargs):
+            positional = [p_ for p_ in parameters if p_.attrs["kind"] != KW]
+            if len(args) > len(positional):
+                raise S.Raised("TypeError")
+            bound = {p_.attrs["name"]: a for p_, a in zip(positional, args)}
+            for k, v in kwargs.items():
+                if k in bound or k not in {p_.attrs["name"] for p_ in parameters}:
+                    raise S.Raised("TypeError")
+                bound[k] = v
+            if set(bound) != {p_.attrs["name"] for p_ in parameters}:
+                raise S.Raised("TypeError")
+            return S.Obj("BoundArguments", arguments={p_.attrs["name"]: bound[p_.attrs["name"]] for p_ in parameters})
+
+        return S.Obj("Signature", bind=bind, parameters=parameters)
+
+    pointer = S.Obj("function pointer")
+    G = {f.name: f.node for q, f in ix.funcs.items() if f.module == tm_mod and q == f"{tm_mod}.{f.name}"}
+    G.update(
+        Signature=signature,
+        Parameter=S.CallableObj("ParameterClass", parameter, KEYWORD_ONLY=KW, POSITIONAL_OR_KEYWORD=POS, POSITIONAL_ONLY="POSITIONAL_ONLY"),
+        BackendCompiler=S.Obj("BackendCompiler", llvm="llvm", cffi="cffi"),
+        KernelType=S.Obj("KernelType", evaluate="evaluate", assemble="assemble", compute="compute"),
+        Language=S.Obj("Language", c="c", llvm="llvm"),
+        generate_module_tensora=lambda *a, **k: S.Obj("Success", __match_args__=("_inner_value",), _inner_value=S.Obj("module")),
+        generate_code=lambda *a, **k: S.Obj("Success", __match_args__=("_inner_value",), _inner_value="code"),
+        compile_module=lambda m: S.Obj("lib", get_function_address=lambda name: pointer if name == "evaluate" else S.Obj("other pointer")),
+        compile_evaluate=lambda code: S.Obj("lib", evaluate=evaluate),
+        tensor_cdefs=S.Obj("ffi", cast=lambda t, x: evaluate if x is pointer else x),
+    )
+    me = S.Obj("TensorMethod")
+    outs = list(S.explore(init.node, [me, problem], {"backend": "llvm"}, globals_=G))
+    if len(outs) != 1 or outs[0][1][0] != "return" or "_evaluate" not in me.attrs:
+        return None
+    return me
+
+
+def call_scenario(text, participant_order=0, evaluate=None, target_first=True, ix=None):
     from . import symeval as S
 
     (tname, tix), occ = _parse_assignment_text(text)
@@ -648,6 +702,10 @@ def call_scenario(text, participant_order=0, evaluate=None, target_first=True):
         _problem=S.Obj("Problem", assignment=assignment, formats=formats),
         _evaluate=evaluate,
     )
+    if ix is not None:
+        built = self_via_init(ix, self_.attrs["_problem"], evaluate)
+        if built is not None:
+            self_ = built
     tensors = {}
     for n, o in orders.items():
         t = S.make_tensor(n, (S.DENSE,) * o, tuple(range(o)))
@@ -692,7 +750,7 @@ def rule_call_semantics(ctx, ix):
     ]
     for text in assignments:
         for po in (0, 1, 2):
-            self_, tensors, parts, formats = scenario(text, po)
+            self_, tensors, parts, formats = scenario(text, po, ix=ix)
             key = f"compile/_tensor_method.py:TensorMethod.__call__:{text} [participant order {po}]"
             problems = []
             entered = 0
@@ -759,7 +817,7 @@ def rule_call_semantics(ctx, ix):
     # inconsistent arguments
     text = "y(i) = A(i,j) * x(j)"
     bad_cases = []
-    self_, tensors, parts, formats = scenario(text)
+    self_, tensors, parts, formats = scenario(text, ix=ix)
     self_0 = self_
     bad_cases.append(("non-Tensor argument", {**tensors, "x": S.Obj("Other")}, (), "TypeError"))
     t = S.make_tensor("x", (S.DENSE, S.DENSE), (0, 1)); t.attrs["cffi_tensor"] = S.Obj("cffi")
@@ -776,7 +834,7 @@ def rule_call_semantics(ctx, ix):
     # every parameter of every scenario assignment, scalars included: a tensor of another order, other modes or another
     # ordering must be refused
     for text2 in ("y(i) = a() * x(i)", "s() = u(i) * c() * v(i)", "A(i,j) = B(i,j) + C(j,i)"):
-        self2, tensors2, _parts2, _formats2 = scenario(text2)
+        self2, tensors2, _parts2, _formats2 = scenario(text2, ix=ix)
         for pname, tgood in tensors2.items():
             o = tgood.attrs["order"]
             variants = [("one more dimension", (S.DENSE,) * (o + 1), tuple(range(o + 1)))]
